@@ -1,7 +1,7 @@
 ------------------------------- MODULE ApiGen -------------------------------
 (* Enumeration of API programs over Api.tla: one state = one program (its calls, the heap it builds
    and the spec's prediction about the newest object).  MC_*.tla instantiate the constants. *)
-EXTENDS Api
+EXTENDS Api, Ext
 
 CONSTANTS En,          \* enabled call families (set of strings)
           ScalarLits,  \* scalar literal operands
@@ -12,6 +12,7 @@ CONSTANTS En,          \* enabled call families (set of strings)
           SOps, VOps,  \* scalar / vector binary operators
           Senses,      \* comparison senses
           AllNames,    \* every declared variable name (for derivative predictions)
+          SingValues,  \* rational values placed on coordinates to hit singular sets (0, 1, -1)
           Want,        \* which predictions to attach: subset of {"D", "H", "V", "deg"}
           Stages,      \* if non-empty: Stages[n] = call families allowed for the n-th call
           FinalEn,     \* if non-empty: call families allowed as the last call of a program
@@ -44,8 +45,20 @@ SpecDeg(t) ==
     LET n == QNF(t) IN
     IF ~n.ok THEN (IF n.why = "toobig" THEN -2 ELSE -1)
     ELSE IF QIsPoly(n.q) THEN PDeg(QToPoly(n.q)) ELSE -3
+\* points on singular sets: each listed value substituted for one or all variables, the others regular
+SingPred(t) ==
+    IF "sing" \notin Want \/ TVars(t) = {} \/ Cardinality(TVars(t)) > 3 THEN <<>>
+    ELSE LET vs == TVars(t)
+             pts == {[n \in vs |-> IF n \in S THEN a ELSE Norm(3, 2)] : S \in (SUBSET vs) \ {{}}, a \in SingValues}
+             seqp == SetToSeq(pts)
+         IN [i \in 1..Len(seqp) |->
+               [pt |-> seqp[i],
+                val |-> Sanitize(ExtEval(t, seqp[i])),
+                d   |-> [v \in vs |-> Sanitize(ExtEval(DS(t, v), seqp[i]))],
+                h   |-> [vw \in vs \X vs |-> Sanitize(ExtEval(H(t, vw[1], vw[2]), seqp[i]))]]]
 ScalarPred(t) ==
     [den  |-> t,
+     sing |-> SingPred(t),
      deg  |-> IF "deg" \in Want THEN SpecDeg(t) ELSE -9,
      vars |-> TVars(t),
      Vs   |-> IF "V" \in Want THEN VLists(TVars(t)) ELSE {},
